@@ -433,4 +433,99 @@ theorem sumQ_probOf (tot : ℤ) (cs : List ℤ) :
     · simp only [probOf, hx, ↓reduceIte, getQ]
       push_cast; ring
 
+/-! ## removal of heralded modes -/
+
+theorem removeFrom_length_add (modes : List Nat) (st : List Nat) :
+    ∀ i, (removeFrom modes i st).length + modesIn modes i st = st.length := by
+  induction st with
+  | nil => intro i; simp [removeFrom, modesIn]
+  | cons x xs ih =>
+    intro i
+    have := ih (i + 1)
+    by_cases h : modes.contains i = true
+    · simp only [removeFrom, modesIn, h, ↓reduceIte, List.length_cons]; omega
+    · simp only [removeFrom, modesIn, h, Bool.false_eq_true, ↓reduceIte, List.length_cons]; omega
+
+theorem removeFrom_sum_add (modes : List Nat) (st : List Nat) :
+    ∀ i, (removeFrom modes i st).sum + photonsIn modes i st = st.sum := by
+  induction st with
+  | nil => intro i; simp [removeFrom, photonsIn]
+  | cons x xs ih =>
+    intro i
+    have := ih (i + 1)
+    by_cases h : modes.contains i = true
+    · simp only [removeFrom, photonsIn, h, ↓reduceIte, List.sum_cons]; omega
+    · simp only [removeFrom, photonsIn, h, Bool.false_eq_true, ↓reduceIte, List.sum_cons]; omega
+
+theorem photonsIn_nil (st : List Nat) : ∀ i, photonsIn [] i st = 0 := by
+  induction st with
+  | nil => intro i; rfl
+  | cons x xs ih => intro i; simp [photonsIn, ih]
+
+theorem modesIn_nil (st : List Nat) : ∀ i, modesIn [] i st = 0 := by
+  induction st with
+  | nil => intro i; rfl
+  | cons x xs ih => intro i; simp [modesIn, ih]
+
+theorem photonsIn_cons (m : Nat) (ms : List Nat) (hm : m ∉ ms) (st : List Nat) :
+    ∀ i, photonsIn (m :: ms) i st =
+      (if i ≤ m ∧ m < i + st.length then st.getD (m - i) 0 else 0) + photonsIn ms i st := by
+  induction st with
+  | nil => intro i; simp [photonsIn]
+  | cons x xs ih =>
+    intro i
+    rw [photonsIn, photonsIn, ih (i + 1)]
+    by_cases e : m = i
+    · subst e
+      simp [hm]
+    · have hc : (m :: ms).contains i = ms.contains i := by
+        simp [Ne.symm e]
+      rw [hc]
+      by_cases hlt : i + 1 ≤ m ∧ m < i + 1 + xs.length
+      · have h2 : i ≤ m ∧ m < i + (x :: xs).length := by simp; omega
+        have e3 : m - i = (m - (i + 1)) + 1 := by omega
+        simp only [hlt, h2, and_self, ↓reduceIte]
+        rw [e3, List.getD_cons_succ]; omega
+      · have h2 : ¬ (i ≤ m ∧ m < i + (x :: xs).length) := by simp at hlt ⊢; omega
+        simp only [hlt, h2, ↓reduceIte]; omega
+
+theorem modesIn_cons (m : Nat) (ms : List Nat) (hm : m ∉ ms) (st : List Nat) :
+    ∀ i, modesIn (m :: ms) i st =
+      (if i ≤ m ∧ m < i + st.length then 1 else 0) + modesIn ms i st := by
+  induction st with
+  | nil => intro i; simp [modesIn]
+  | cons x xs ih =>
+    intro i
+    rw [modesIn, modesIn, ih (i + 1)]
+    by_cases e : m = i
+    · subst e
+      simp [hm]
+    · have hc : (m :: ms).contains i = ms.contains i := by
+        simp [Ne.symm e]
+      rw [hc]
+      by_cases hlt : i + 1 ≤ m ∧ m < i + 1 + xs.length
+      · have h2 : i ≤ m ∧ m < i + (x :: xs).length := by simp; omega
+        simp only [hlt, h2, and_self, ↓reduceIte]; omega
+      · have h2 : ¬ (i ≤ m ∧ m < i + (x :: xs).length) := by simp at hlt ⊢; omega
+        simp only [hlt, h2, ↓reduceIte]; omega
+
+/-- distinct, in-range herald modes whose expectations are met hold exactly the expected photons -/
+theorem photonsIn_heralds (st : List Nat) : ∀ (hs : List (Nat × Nat)),
+    (hs.map (·.1)).Nodup → (∀ h ∈ hs, h.1 < st.length) → heraldsOk hs st = true →
+    photonsIn (hs.map (·.1)) 0 st = heraldPhotons hs ∧ modesIn (hs.map (·.1)) 0 st = hs.length := by
+  intro hs
+  induction hs with
+  | nil => intro _ _ _; simp [photonsIn_nil, modesIn_nil, heraldPhotons]
+  | cons h hs ih =>
+    intro hnd hr hok
+    simp only [List.map_cons, List.nodup_cons] at hnd
+    have hr' : ∀ h' ∈ hs, h'.1 < st.length := fun h' hh => hr h' (List.mem_cons_of_mem _ hh)
+    simp only [heraldsOk, List.all_cons, Bool.and_eq_true, beq_iff_eq] at hok
+    obtain ⟨i1, i2⟩ := ih hnd.2 hr' (by simpa [heraldsOk] using hok.2)
+    have hlt := hr h (List.mem_cons_self ..)
+    rw [List.map_cons, photonsIn_cons _ _ hnd.1, modesIn_cons _ _ hnd.1, i1, i2]
+    simp only [Nat.zero_le, Nat.zero_add, hlt, and_self, ↓reduceIte, Nat.sub_zero, hok.1,
+      heraldPhotons, List.map_cons, List.sum_cons, List.length_cons]
+    exact ⟨trivial, Nat.add_comm _ _⟩
+
 end PM.C09
